@@ -238,6 +238,14 @@ def bordaStep (base : Int) (_s : BordaState) (votes : RankedProfile) : BordaStat
   let s' := bordaSet base all.length
   (s', (positionalGo (bordaScores s') (all.map (fun c => (c, (0 : Rat)))) votes).map sortDesc)
 
+/-- the positional conversion with NO scorer object: the Borda scores are computed from the number of candidates of the
+    profile at hand (the stateless specification) -/
+def positionalSpec (base : Int) (votes : RankedProfile) : Except Err Votes :=
+  let all := allRanked votes
+  let n := all.length
+  (positionalGo (fun k => if k > n then .error .valueError else .ok (selectPadded (Gen.RankScore.borda_scores base n) k))
+    (all.map (fun c => (c, (0 : Rat)))) votes).map sortDesc
+
 /-- a variant that initialises the scorer only once (`if self.n_candidates is None`) -/
 def bordaStepSetOnce (base : Int) (s : BordaState) (votes : RankedProfile) : BordaState × Except Err Votes :=
   let all := allRanked votes
